@@ -39,7 +39,7 @@ package console
 //@   ensures [C38.token_is_nonempty_cookie] result1 ==> result0 != ""
 
 //@ func (a *authManager) validCredentials
-//@   exact_strings
+//@   exact_strings ops
 //@   ensures [C38.credentials_match_configured] result ==> username != "" && password != "" && username == a.username && password == a.password
 
 // handleLogin: the only place a session is created. The entry is written only for a POST that the rate limiter
